@@ -3,7 +3,10 @@ ID = "C10"
 HARNESS = "h_c10"
 VARIANT = "tsan"
 KEEP_FIRST = 0
-SHRINK_BUDGET = 60
+import os, re
+# a failing case of this property typically costs 2 s (deadline probe) or 6 s (watchdog) per shrink test
+SHRINK_BUDGET = int(os.environ.get("VERIF_SHRINK_BUDGET", "30"))
+STALL_SIGNATURE = "C10:stalled-after-misuse-report"
 KNOWN_SIGNATURE = "C10:misuse-report-while-locked"
 RACE_SIGNATURE = "C10:malloc-count-race"
 # halt_on_error=0: a ThreadSanitizer report does not stop the case; the harness' report hook prints one `tsan-race ...`
@@ -17,11 +20,13 @@ MALLOC_COUNT_RACE_IS_FINDING = False
 
 TRUSTED = [
     "Lean 4 kernel; axioms of every theorem audited (propext, Classical.choice, Quot.sound at most)",
-    "hand-written lock-discipline / interleaving model lean/CppUModel/Model/ThreadSafe.lean, tied to "
-    "src/CppUTest/MemoryLeakWarningPlugin.cpp by the h_c10 correspondence of this run and by the regenerated switch table",
+    "hand-written interpreter of the scoped-lock statements and interleaving model lean/CppUModel/Model/ThreadSafe.lean (the statement "
+    "lists themselves are regenerated), tied to src/CppUTest/MemoryLeakWarningPlugin.cpp by the h_c10 correspondence of this run",
     "extractor translate/extract_threadsafe.py (function-pointer table, entry points, the three switches, first statement and "
-    "detector calls of every switched function, shape of MemLeakScopedMutex / ScopedMutexLock / SimpleMutex)",
-    "pthread mutex semantics, the C++ memory model and setjmp/longjmp (modelled: acquire blocks while held; longjmp skips destructors)",
+    "detector calls of every switched function; constructor / destructor / releaseBeforeFailing of MemLeakScopedMutex, the flag's "
+    "initialiser and MemoryLeakWarningReporter::fail as statement lists; shape of ScopedMutexLock / SimpleMutex)",
+    "pthread mutex semantics, the C++ memory model and setjmp/longjmp (modelled: acquire blocks while held; longjmp skips destructors "
+    "and everything after failWith)",
     "g++ ThreadSanitizer for the race observations on the explored schedules",
     "underlying allocator contract: a live block is never handed out again (hypothesis `fresh`)",
 ]
@@ -29,15 +34,23 @@ ASSUMPTIONS = [
     "a schedule is an interleaving of WHOLE wrappers: justified by wiring_complete (every entry point is switched to a function "
     "that takes the scoped lock first) plus mutex semantics; absence of data races for all schedules is a runtime fact, observed "
     "with ThreadSanitizer and forced pre-emption on the generated schedules only",
-    "misuse reports are raised on the test's own (main) thread; a report from another thread would longjmp across threads "
-    "(undefined) and is outside the quantifier - the harness counts such reports instead of raising them",
+    "misuse reports are raised on the test's own (main) thread - also while worker threads run (op runm); a report from another "
+    "thread would longjmp across threads (undefined) and is outside the quantifier - the harness counts such reports instead of "
+    "raising them",
+    "every thread that can raise a report does so from inside a wrapper of the thread-safe table (the flag memLeakMutexIsHeld is "
+    "one global: a report raised outside any wrapper WHILE another thread is inside one would release that thread's lock; "
+    "with the thread-safe table installed no entry point bypasses the wrappers - wiring_complete)",
     "the underlying malloc/realloc succeed (no out-of-memory inside the concurrent phase)",
 ]
 RULE = ("1-16 pthreads, each running a generated script of new / new[] / nothrow / debug-new / malloc / calloc / realloc / delete / "
         "delete[] / free on thread-private labels plus hand-overs (give/take) between threads, pre-emption forced at every lock "
-        "acquire and release from the case's seed; second phases reuse blocks left over; misuse sub-scenarios: 12 kinds of misuse "
-        "(non-allocated, allocator mismatch, guard overrun; free/delete/delete[]/realloc) in thread-safe and default mode, each "
-        "followed by the next allocation in a helper thread under a 2 s deadline; malformed stream: lines with wrong owners, "
+        "acquire and release from the case's seed; second phases reuse blocks left over; misuse sub-scenarios: 16 kinds of misuse "
+        "(non-allocated, allocator mismatch, guard overrun; each through free / delete / delete[] / realloc) in thread-safe and "
+        "default mode, each followed by the next allocation in a helper thread under a 2 s deadline; misuse-grid: every cell of "
+        "misuse class x release wrapper in thread-safe mode followed by multi-threaded phases under the 6 s progress watchdog; "
+        "misuse-row: 2-6 misuses in a row; misuse-switch: misuse, plain overloads (misuse there), thread-safe again (also through "
+        "save/restore), misuse, threads; misuse-concurrent (runm): the test's own thread reports a misuse WHILE 2-16 worker threads "
+        "are inside the wrappers; malformed stream: lines with wrong owners, "
         "unknown labels, bad thread ids (must be skipped); wiring stream: histories of on/off and balanced "
         "saveAndDisable/restore cycles (single, nested, repeated) and the fresh-process history (thread-safe mode switched on "
         "before the first tracked allocation, so the cycle inside the first getGlobalDetector() runs under it), each followed by a "
@@ -53,7 +66,20 @@ RELEASES = {"n": ["delete", "deletesz", "deletent", "deletedbg", "deletedbgi"],
             "a": ["delarr", "delarrsz", "delarrnt", "delarrdbg", "delarrdbgi"],
             "m": ["free"]}
 MISUSES = ["free_bogus", "delete_bogus", "delarr_bogus", "realloc_bogus", "new_free", "malloc_delete", "new_delarr",
-           "newarr_delete", "corrupt_free", "corrupt_delete", "corrupt_delarr", "corrupt_realloc"]
+           "newarr_delete", "corrupt_free", "corrupt_delete", "corrupt_delarr", "corrupt_realloc",
+           "new_realloc", "newarr_realloc", "newarr_free", "malloc_delarr"]
+# misuse class x release wrapper it is raised in (every cell is generated in thread-safe mode on every run)
+MISUSE_GRID = {
+    ("nonallocated", "free"): "free_bogus", ("nonallocated", "delete"): "delete_bogus",
+    ("nonallocated", "delete[]"): "delarr_bogus", ("nonallocated", "realloc"): "realloc_bogus",
+    ("mismatch", "free"): "new_free", ("mismatch", "delete"): "malloc_delete",
+    ("mismatch", "delete[]"): "new_delarr", ("mismatch", "realloc"): "new_realloc",
+    ("corrupt", "free"): "corrupt_free", ("corrupt", "delete"): "corrupt_delete",
+    ("corrupt", "delete[]"): "corrupt_delarr", ("corrupt", "realloc"): "corrupt_realloc",
+}
+MISUSE_CELL = {v: "%s/%s" % k for k, v in MISUSE_GRID.items()}
+MISUSE_CELL.update({"newarr_delete": "mismatch/delete", "newarr_realloc": "mismatch/realloc", "newarr_free": "mismatch/free",
+                    "malloc_delarr": "mismatch/delete[]"})
 
 
 # which of the 21 externally visible entry points a script form goes through
@@ -314,6 +340,82 @@ def misuse_case(rng, threadsafe):
     return ops
 
 
+def misuse_then_work(rng, kind, tier):
+    """thread-safe mode, one misuse (through the wrapper of its grid cell), then further allocations and releases from
+    several threads: they only finish if the report gave the detector's lock back (watchdog: 6 s without progress)"""
+    g = Gen(rng)
+    g.macro = rng.choice(["none", "one"])
+    ops = ["fresh"] if rng.random() < 0.1 else ["on"]
+    if rng.random() < 0.4:
+        ops += g.phase(rng.choice([2, 3]), rng.choice([4, 10]))
+    ops.append("misuse " + kind)
+    ops += g.phase(rng.choice([2, 3, 4, 8]), rng.choice([6, 16, 40] if tier == "quick" else [16, 60, 200]))
+    if rng.random() < 0.5:
+        ops += g.sweep(rng.choice([2, 3]))
+    ops.append("cleanup")
+    return ops
+
+
+def misuse_row_case(rng, tier):
+    """several misuses in a row (each must find the lock free again), then work"""
+    g = Gen(rng)
+    g.macro = "none"
+    ops = ["on"]
+    for _ in range(rng.choice([2, 3, 4, 6])):
+        ops.append("misuse " + rng.choice(MISUSES))
+    ops += g.phase(rng.choice([2, 4]), rng.choice([6, 20]))
+    for _ in range(rng.choice([0, 1, 2])):
+        ops.append("misuse " + rng.choice(MISUSES))
+    ops.append("cleanup")
+    return ops
+
+
+def misuse_switch_case(rng, tier):
+    """misuse in thread-safe mode, back to the plain overloads (misuse there: the flag is clear, nothing may be
+    unlocked), thread-safe mode on again (also through a save/restore cycle), misuse, then threads"""
+    g = Gen(rng)
+    g.macro = "none"
+    ops = ["on", "misuse " + rng.choice(MISUSES), "off"]
+    if rng.random() < 0.7:
+        ops.append("misuse " + rng.choice(MISUSES))
+    if rng.random() < 0.4:
+        ops += g.phase(1, rng.choice([4, 10]), handover=0)
+    ops.append("on")
+    if rng.random() < 0.5:
+        ops += save_restore(rng)
+    ops.append("misuse " + rng.choice(MISUSES))
+    if rng.random() < 0.5:
+        ops += save_restore(rng)
+    ops += g.phase(rng.choice([2, 3, 5]), rng.choice([6, 20, 40]))
+    ops.append("cleanup")
+    if rng.random() < 0.3:
+        ops += ["off", "misuse " + rng.choice(MISUSES)]
+    return ops
+
+
+def misuse_concurrent_case(rng, tier):
+    """the test's own thread misuses the allocator WHILE the worker threads are inside the wrappers (`runm`); afterwards
+    more phases, which only finish if the lock was given back"""
+    g = Gen(rng)
+    g.macro = "none"
+    ops = ["on"]
+    if rng.random() < 0.3:
+        ops += save_restore(rng)
+    n = rng.choice([2, 3, 4, 8, 16])
+    ph = g.phase(n, rng.choice([10, 30, 80] if tier == "quick" else [30, 100, 400]))
+    ph[-1] = "runm " + rng.choice(MISUSES)
+    ops += ph
+    for _ in range(rng.choice([0, 1, 2])):
+        ph = g.phase(rng.choice([2, 4]), rng.choice([6, 20]))
+        if rng.random() < 0.5:
+            ph[-1] = "runm " + rng.choice(MISUSES)
+        ops += ph
+    if rng.random() < 0.5:
+        ops.append("misuse " + rng.choice(MISUSES))
+    ops.append("cleanup")
+    return ops
+
+
 def generate(rng, tier):
     quick = tier == "quick"
     out = []
@@ -333,6 +435,19 @@ def generate(rng, tier):
         out.append(("misuse-threadsafe", ["on", "misuse " + k]))
     for _ in range(4 if quick else 12):
         out.append(("misuse-threadsafe", misuse_case(rng, True)))
+    # every cell of the grid misuse class x release wrapper, each followed by further work under the watchdog
+    for rep in range(1 if quick else 4):
+        for cell in sorted(MISUSE_GRID):
+            out.append(("misuse-grid", misuse_then_work(rng, MISUSE_GRID[cell], tier)))
+    for _ in range(6 if quick else 30):
+        out.append(("misuse-row", misuse_row_case(rng, tier)))
+    for _ in range(6 if quick else 30):
+        out.append(("misuse-switch", misuse_switch_case(rng, tier)))
+    for k in rng.sample(MISUSES, 3):      # smallest form first: two threads, one operation each
+        out.append(("misuse-concurrent", ["on", "threads 2 %d" % rng.randint(1, 10 ** 9), "t 0 new b1 8", "t 1 mallocd b2 8",
+                                          "runm " + k, "cleanup"]))
+    for _ in range(16 if quick else 80):
+        out.append(("misuse-concurrent", misuse_concurrent_case(rng, tier)))
     return out
 
 
@@ -352,15 +467,22 @@ def signature(r):
     """the two findings of the unchanged tree keep their own stable signatures (only when NOTHING else is wrong with the
     case: model and implementation agree on every other line); everything else is classified as usual"""
     from vlib import flow
-    if (r.spec and r.spec.startswith("spec FAIL") and "misuse-report-while-locked" in r.spec
-            and r.agree and not r.crash):
+    if r.spec and r.spec.startswith("spec FAIL") and "misuse-report-while-locked" in r.spec and not r.crash:
+        # one stable class whatever the kind of misuse, and whether or not the model (which follows the regenerated
+        # statements of the scoped lock) predicts it
         return KNOWN_SIGNATURE
+    if r.spec and r.spec.startswith("spec FAIL") and "stalled-after-misuse-report" in r.spec:
+        return STALL_SIGNATURE
     if r.crash == "crash tsan" and r.agree and r.spec == "spec ok":
         return RACE_SIGNATURE
     if not r.crash and r.spec and r.spec.startswith("spec FAIL") and "did not hold the detector lock" in r.spec:
         # one class whatever entry forms are named in the message (otherwise every form is shrunk separately)
         return "spec:underlying allocator call by a thread that did not hold the detector lock"
-    return flow.default_signature(r)
+    sig = flow.default_signature(r)
+    if sig.startswith("spec:"):
+        # one class per message, not one per kind of misuse
+        sig = re.sub(r"\b(misuse|runm) [a-z_]+", r"\1 K", sig)
+    return sig
 
 
 def tolerated(r):
@@ -372,7 +494,7 @@ def nontrivial(r):
     for l in r.impl:
         if l.startswith("> threads "):
             n = int(l.split()[2])
-        elif l == "> run" and n >= 2:
+        elif (l == "> run" or l.startswith("> runm ")) and n >= 2:
             return True
         elif l.startswith("> misuse"):
             return True
@@ -381,17 +503,33 @@ def nontrivial(r):
 
 def observe(r, rep):
     n = 0
+    on = False
+    misused = False
     for l in r.impl:
         w = l.split()
         if l.startswith("> threads "):
             n = int(w[2])
-        elif l == "> run":
+        elif l in ("> on", "> fresh"):
+            on = True
+        elif l == "> off":
+            on = False
+        elif l == "> run" or l.startswith("> runm "):
             rep.count("run.threads_%s" % ("1" if n == 1 else "2-4" if n <= 4 else "5-8" if n <= 8 else "9-16"))
+            if misused:
+                rep.count("run.after_a_misuse_report")
+            if l.startswith("> runm "):
+                misused = True
+                rep.count("misuse_while_threads_run." + MISUSE_CELL.get(w[2], w[2]))
+                rep.count("misuse_while_threads_run.threads_%s" % ("2-4" if n <= 4 else "5-8" if n <= 8 else "9-16"))
         elif l.startswith("> t ") and len(w) > 3:
             rep.count("script." + w[3])
             rep.count("entry." + ENTRY.get(w[3], w[3]))
         elif l.startswith("> misuse"):
             rep.count("misuse." + w[2])
+            rep.count("misuse_cell.%s.%s" % ("threadsafe" if on else "default", MISUSE_CELL.get(w[2], w[2])))
+            if misused:
+                rep.count("misuse.after_an_earlier_misuse")
+            misused = True
         elif l in ("> save", "> restore", "> fresh"):
             rep.count("switch." + w[1])
         elif l == "> skip":
@@ -405,11 +543,18 @@ def observe(r, rep):
 
 
 LEVEL_TEXT = ("Partial. Machine-checked Lean 4 theorems (no bound on threads, operations or schedules): (1) lock discipline of the "
-              "threadsafe_* wrappers as a state machine (acquire; body; release, a misuse report leaving by longjmp): the lock is free "
-              "after every operation that reports no misuse, a wrapper blocks while the lock is held, a misuse-free sequence of "
-              "wrappers never blocks; the lock is HELD after a misuse report and the next operation blocks for ever "
-              "(C10_full_fails_known refutes the property's lock clause for the code as it is - known finding "
-              "C10:misuse-report-while-locked); (2) wiring_complete by `decide` over the switch table regenerated from "
+              "threadsafe_* wrappers over statement lists REGENERATED from the source on every run (constructor and destructor of "
+              "MemLeakScopedMutex, releaseBeforeFailing, MemoryLeakWarningReporter::fail, the flag's initialiser) and executed as a state "
+              "machine over mutex and flag: after EVERY operation - a misuse report of any kind included - the lock is free and the flag "
+              "clear (lock_free_after_every_op / C10_full_holds), every history of wrapper calls with misuses anywhere never blocks and "
+              "computes the sequential detector run (run_wrappers_every_history), also across switches to the plain overloads and back "
+              "(mode_switches_every_history); a wrapper blocks while the lock is held; flag invariant: at every statement boundary of a "
+              "wrapper call, on either exit, flag=true implies lock held, the flag is set exactly where the body runs and clear between "
+              "calls, it is cleared BEFORE the mutex is given back (wrapper_trace_misuse); a report outside any wrapper (default mode) "
+              "touches no lock; why the repair is needed: the same code without the releaseBeforeFailing call (the code before b50078d), "
+              "without the flag assignment in the constructor, or without the clearing in the destructor is refuted by the old witness "
+              "free(&local) (C10_full_fails_without_release_call, ..._without_flag_set, stale_flag_without_flag_clear); "
+              "(2) wiring_complete by `decide` over the switch table regenerated from "
               "MemoryLeakWarningPlugin.cpp on every run (all 21 entry points go through the 11 pointers, each of the three switches "
               "assigns every pointer exactly once, every function installed by turnOnThreadSafeNewDeleteOverloads constructs the "
               "scoped lock as its first statement and calls the same detector operations as the unlocked one); "
@@ -417,24 +562,30 @@ LEVEL_TEXT = ("Partial. Machine-checked Lean 4 theorems (no bound on threads, op
               "restoreNewDeleteOverloads (restore (save s) puts all 11 pointers back for the thread-safe, default and off "
               "configurations, also nested, repeated and inside the first getGlobalDetector() call); (3) for EVERY "
               "interleaving of whole wrappers that respects the ownership discipline (distinct live ids, a thread releases / "
-              "reallocates / hands over only blocks it holds, a block is taken only after it was given, no overrun): no misuse is "
+              "reallocates / hands over only blocks it holds, a block is taken only after it was given - so blocks allocated in one "
+              "thread and freed in another are included -, no overrun): no misuse is "
               "ever reported, live ids stay distinct, the outstanding set after the threads finish is the union of what each thread "
               "still holds (+ blocks in transit) and equals the result of running the threads one after another; two operations on "
               "different blocks commute; every release that is not reported released an outstanding block of the same family, and a "
               "release of a non-outstanding block is always reported. NOT proved, only observed on the generated schedules: absence of "
-              "data races in the compiled code and the real mutex behaviour - the h_c10 harness runs 1-16 pthreads through all 21 real "
+              "data races in the compiled code and the real mutex / longjmp behaviour - the h_c10 harness runs 1-16 pthreads through all 21 real "
               "entry points (also after save/restore cycles and in a fresh process) under ThreadSanitizer with pre-emption forced at "
               "every lock acquire/release and checks mutual exclusion, "
-              "one acquisition per operation, every underlying allocator call made under the lock, block contents, detector totals "
-              "after join against the threads' own tables, that everything held can be released afterwards, and completion of the "
-              "next allocation within 2 s after each of 12 kinds of misuse in thread-safe and default mode.")
-LEVEL_NOTE = ("Trusted: Lean kernel; the hand-written model (validated against the code by this run's correspondence); the wiring "
-              "extractor; pthread/longjmp semantics as modelled; ThreadSanitizer. Data-race freedom for ALL schedules is a runtime "
+              "one acquisition and one release per operation, every underlying allocator call made under the lock, block contents, detector totals "
+              "after join against the threads' own tables, that everything held can be released afterwards, completion of the "
+              "next allocation within 2 s after each of 16 kinds of misuse in thread-safe and default mode, and completion of "
+              "multi-threaded phases during and after misuse reports (6 s progress watchdog).")
+LEVEL_NOTE = ("Trusted: Lean kernel; the hand-written interpreter and interleaving model (validated against the code by this run's "
+              "correspondence); the extractor; pthread/longjmp semantics as modelled; ThreadSanitizer. Data-race freedom for ALL schedules is a runtime "
               "fact that no theorem here carries; the theorems show that mutual exclusion over whole operations implies "
               "schedule-independent accounting, and the regenerated wiring obligation shows every entry point is under the lock. "
-              "Findings of the unchanged tree: C10:misuse-report-while-locked (lock left held after a misuse report, next allocation "
-              "deadlocks) and C10:malloc-count-race (ThreadSanitizer data race on TestHarness_c.cpp's malloc_count, bumped by "
+              "The former finding C10:misuse-report-while-locked was repaired by b50078d (the report gives the lock back before it leaves "
+              "by longjmp); its witness corpus/C10/misuse_lock.ops now passes and stays in the corpus, the model executes the repaired "
+              "statements as regenerated, and the refutation was replaced by the proof of the full lock clause. The flag of the repair is "
+              "one global: the model (whole wrappers, one lock bit) does not cover a report raised outside any wrapper while another thread "
+              "is inside one (outside the quantifier, see ASSUMPTIONS). Remaining finding of the unchanged tree, tolerated: "
+              "C10:malloc-count-race (ThreadSanitizer data race on TestHarness_c.cpp's malloc_count, bumped by "
               "cpputest_malloc_location before the locked call; not detector state, every other observation unaffected).")
-TECHNIQUE = ("Lean 4 state-machine, refinement and interleaving proofs over an executable model + regenerated function-pointer wiring "
-             "table (decide) + differential multi-thread harness under ThreadSanitizer with forced pre-emption, report attribution "
-             "hook, progress watchdog and a deadline probe")
+TECHNIQUE = ("Lean 4 state-machine, refinement and interleaving proofs over an executable model whose scoped-lock statements and "
+             "function-pointer wiring are regenerated from the source (decide / induction) + differential multi-thread harness under "
+             "ThreadSanitizer with forced pre-emption, report attribution hook, progress watchdog and a deadline probe")
